@@ -8,6 +8,16 @@ ids = [p["id"] for p in props]
 HOOK_COMMITS = ["332865e1b", "bf49db00e", "0b99e4fc0", "68bfb6d5a"]
 
 CHECKS = {
+ "C05": dict(
+   level="exploration", design="§4 C05",
+   technique="runtime monitoring: reference-value oracle (Python: exact integers/Fractions, IEEE floats bit-exact, datetime, 2-ulp tolerance for transcendental functions) on echoed argument tuples, and a context-agreement monitor: the same expression over the same tuple evaluated in nine contexts of the real engine must give the same value",
+   text="Comparisons over all numeric/text/date/boolean/timestamp types incl. mixed integer, int-float, int-decimal and decimal-decimal pairs, IS/IS DISTINCT FROM/BETWEEN/IN-list, AND/OR/NOT exhaustive 27-row truth tables (61 shapes), CASE/COALESCE, non-overflowing arithmetic on ints, floats (bit-exact) and decimals, ~45 numeric functions, date_part/extract/date_trunc/epoch* against Python datetime for years 1-9999, documented examples of list_functions(); arguments boundary-biased (NULL, +-0, NaN, +-inf, subnormals, type limits, 2^24/2^53/2^63 neighbours), 8-bit pairs exhaustively (one pair per seed in quick, all in thorough). Contexts: columns, under a selection, as the WHERE predicate (kept ids checked), constant vector from a one-row cross join, literals with folding on/off, CASE branch and condition, JOIN ON condition, written twice (CSE). Operator precedence by minimal vs full parenthesisation of random trees.",
+   note="Built by a sub-agent, reviewed by the lead. Where the documentation leaves a choice (tie rule of round() on floats, IS TRUE of NULL) only context agreement is required. Repaired through this check: -0.0/+0.0 hashed differently (join/group keys), date_part seconds fields, date_trunc before 1970, CASE with untyped NULL first branch, DECIMAL vs untyped NULL / UBIGINT precision. Recorded: BIGINT vs UBIGINT compared as DOUBLE, asinh/acosh accuracy, missing TIMESTAMP cast set."),
+ "C13": dict(
+   level="exploration", design="§4 C13",
+   technique="runtime monitoring: exact-arithmetic oracle (Fractions, candidate rounding rules per conversion kind intersected over all observations, rule-independent constraints: range, precision, neighbouring value, exact when representable) over engine executions; outcome-class monitor; text round-trip monitor through a materialised text column",
+   text="Cast matrix discovered at run time over 24 types (twice, in separate engines). Numeric->numeric for every pair: 8-bit sources exhaustively, otherwise boundary-biased (limits +-1, +-0, NaN, +-inf, subnormals, halfway cases at every target scale, 2^24/2^53/2^63/2^64 neighbours, max-precision decimals); three routes (CAST, ::, INSERT into a typed column) must agree; idempotence, monotonicity, folded-constant context; every value expected to fail gets its own case and a mixed batch must fail as a whole. Chained casts must equal the composition. TEXT -> every type with spelling corpora (signs, zeros, whitespace, exponents, garbage, empty, nan/inf, long digit strings, dates incl. Feb 30 / year 0 / 10000, booleans, intervals). Round trip v::TEXT::T bit-exact for every type with both directions. Thorough: all 65536 values of SMALLINT, USMALLINT and HALF.",
+   note="Built by a sub-agent, reviewed by the lead. TRY_CAST does not exist. Repaired through this check: nested-cast flattening over a lossy inner cast, decimal->decimal rescale/precision, validate_precision at MIN, text->decimal parser (overflow, precision, empty, rounding), BINARY->TEXT invalid UTF-8 leaving an unwritten slot, int/float->decimal scale >= 10. Recorded: float<->decimal scaling done in the float format (6 signatures), interval parser overflow/saturation (3), interval text round trip (7)."),
  "C20": dict(
    level="exploration", design="§4 C20",
    technique="runtime monitoring: code-point reference oracle (Python str/re, 40-line LIKE matcher) over engine executions; UTF-8 validity monitor on raw result bytes in the driver; four-way agreement monitor for LIKE (constant pattern optimizer on / off, pattern from a column, NOT LIKE) and context agreement (column, under selection, folded constant)",
